@@ -1775,6 +1775,7 @@ def check_C20(chk):
     quick = chk.tier == "quick"
     cli = Q.build_cli()
     cases, gen, dist = Q.tlc_enumerate("Cli.tla", env={"MAXMB": "260", "ALLSIZES": "0"} if quick else {"MAXMB": "320", "ALLSIZES": "1"})
+    seen_fmt = set()
     rng = random.Random(chk.seed * 31 + 20)
     tmp = os.path.join(chk.wd, "tmp")
     os.makedirs(tmp, exist_ok=True)
@@ -1842,8 +1843,9 @@ def check_C20(chk):
                 chk.report(dict(scenario=dict(cli=c, size=n), summary={}), "C20", f"convert {c['size']}/{c['content']} ({n} bytes): {why}",
                            f"convert:{c['size']}:{why[:40]}")
         elif c["t"] == "format":
-            if quick and (c["mb"], c["cb"]) in ((1024, 21), (1024, 12)) :
-                pass
+            if (c["mb"], c["cb"], c["ro"]) in seen_fmt:
+                continue
+            seen_fmt.add((c["mb"], c["cb"], c["ro"]))
             img = os.path.join(tmp, f"fmt-{c['mb']}-{c['cb']}-{c['ro']}.qcow2")
             if os.path.exists(img):
                 os.remove(img)
